@@ -84,9 +84,9 @@ SPEC += [
     "interface\nsubroutine ext(a)\nreal a\nend subroutine ext\nend interface", "abstract interface\nfunction fi(x) result(r)\nreal x, r\nend function fi\nend interface",
     "interface operator(.dot.)\nmodule procedure dotp\nend interface operator(.dot.)", "interface assignment(=)\nmodule procedure assign_t\nend interface", "interface read(formatted)\nmodule procedure rf\nend interface",
 ]
-IFACE = ["procedure f", "module procedure f", "module procedure f, g", "subroutine s(a)\ninteger a\nend subroutine s",
+IFACE = ["procedure f", "module procedure f", "module procedure f, g", "procedure :: f", "procedure :: f, g", "module procedure :: f", "subroutine s(a)\ninteger a\nend subroutine s",
          "function f(x)\nreal x\nend function f"]
-FORMATS = ["1x, i5", "i5", "f10.3", "a", "3(i2, 1x)", "'text'", "e12.4", "2i5", "a, /, a", "i5.3, es12.4", "l1, g10.3", "tr2, tl1, t10"]
+FORMATS = ["a // a", "i3, /, /, a", "a, :, :, i2", "2/, a", "i2, 3x, /, /, /", "1x, i5", "i5", "f10.3", "a", "3(i2, 1x)", "'text'", "e12.4", "2i5", "a, /, a", "i5.3, es12.4", "l1, g10.3", "tr2, tl1, t10"]
 
 VALID = "module m\ninteger :: a\ncontains\nsubroutine s\nend subroutine s\nend module m\n"
 INVALID = "program p\nx = (\nend program p\n"
